@@ -27,6 +27,14 @@ type CircuitBreaker struct {
 }
 
 func NewCircuitBreaker(config CircuitBreakerConfig) *CircuitBreaker {
+	// A half-open episode admits at most HalfOpenRequests probes, and closing takes
+	// SuccessThreshold successful ones. With a threshold above the admission budget the breaker
+	// could never close: once the admitted probes had succeeded it would sit half-open, refusing
+	// everybody, for good. Closing cannot ask for more successes than probes are admitted.
+	if config.HalfOpenRequests > 0 && config.SuccessThreshold > config.HalfOpenRequests {
+		config.SuccessThreshold = config.HalfOpenRequests
+	}
+
 	cb := &CircuitBreaker{
 		config: config,
 	}
